@@ -3,6 +3,7 @@
     aes.enc x<key> x<block>          aes.dec x<key> x<block>          -> x<hex> | ERR
     aes.rt  x<key> x<block>          -> enc;dec(enc);dec;enc(dec)     (round trips; model only — the property is the plugin's predicate)
     aes.gmul a b                     -> decimal | ERR
+    aes.gmulc a b                    -> gmul(a,b);gmul(b,a)           (commutativity)
     aes.keyschedule x<key>           -> all Nb(Nr+1) words, concatenated
     aes.sbox / aes.sboxinv x<state>  (module functions Sbox / Sbox_inv)
     aes.subbytes / aes.invsubbytes / aes.shiftrows / aes.invshiftrows / aes.mixcolumns / aes.invmixcolumns x<state>
@@ -87,6 +88,10 @@ def handle : Handler := fun op args =>
   | "aes.gmul", [a, b] => do
       let a ← parseNat? a; let b ← parseNat? b
       pure (fmtE toString (Aes.gmul a b), if a < 256 && b < 256 then toString (Spec.Aes.gfmul a b) else "-")
+  | "aes.gmulc", [a, b] => do
+      let a ← parseNat? a; let b ← parseNat? b
+      pure (fmtE toString (Aes.gmul a b) ++ ";" ++ fmtE toString (Aes.gmul b a),
+            if a < 256 && b < 256 then toString (Spec.Aes.gfmul a b) ++ ";" ++ toString (Spec.Aes.gfmul b a) else "-")
   | "aes.keyschedule", [k] => do
       let k ← parseBytes? k
       pure (fmtE (fun w => fmtBytes w.flatten) (Aes.keyscheduleE k),
